@@ -9,6 +9,9 @@
    complete g               = executeTxsConcurrent has returned;
    seq_world / observed_seq = executeTxsSequential: the transactions one by one in
      block order;
+   Fail k (in a program)    = the attempt ends with a retryable error: the executor
+     resets the state (Reset) and runs k; sequentially: the world goes back to the
+     one the transaction started from;
    well_declared t          = the program of t reads / writes only accounts covered
      by the lock requests of t;
    no_world_read t          = t does not request {WorldIDStr, AccountReadLock}. *)
@@ -47,6 +50,18 @@ Theorem C09_no_deadlock : forall level w0 txs sched,
   exists a, In a (actors txs) /\ can_step txs (exec level w0 txs sched) a = true.
 Proof. exact no_deadlock. Qed.
 Print Assumptions C09_no_deadlock.
+
+(* a retried transaction's effects equal a fresh run: failing first attempts (each
+   running a prefix of the instructions) leave no trace in the sequential meaning;
+   with C09_serializable the same holds for concurrent execution *)
+Theorem C09_retry_fresh : forall is fails w,
+  run_prog (compile_fails is fails) w = run_prog (compile is []) w.
+Proof. exact run_compile_fails. Qed.
+Print Assumptions C09_retry_fresh.
+
+Theorem C09_retry_fresh_prog : forall p w, run_prog (Fail p) w = run_prog p w.
+Proof. exact run_prog_fail. Qed.
+Print Assumptions C09_retry_fresh_prog.
 
 (* the world READ lock path is NOT serializable: a well-declared block and a
    complete schedule (replayed on the real code by the harness) in which the
